@@ -5,7 +5,10 @@ VERIF = os.path.dirname(os.path.dirname(os.path.abspath(__file__)))
 SPEC = os.path.join(VERIF, "spec")
 WORK = os.path.join(VERIF, "work")
 HARNESS = os.path.join(VERIF, "harness")
-EVID = os.path.join(VERIF, "evidence")
+# trial runs against seeded changes (tools/try_mutant*.sh) write their evidence elsewhere, so that evidence/ only ever
+# holds what a run on the current tree produced
+EVID = os.environ.get("VERIF_EVIDENCE_DIR") or os.path.join(VERIF, "evidence")
+os.makedirs(EVID, exist_ok=True)
 REPO = "/repo"
 NCPU = os.cpu_count() or 4
 
